@@ -4,6 +4,8 @@ package registry
 import (
 	"os"
 
+	"verifharness/pure"
+
 	"verifharness/det"
 	"verifharness/driver"
 )
@@ -37,4 +39,23 @@ func init() {
 
 func init() {
 	driver.Replayers["*"] = func(path string) int { return det.ReplayPath(path, os.Getenv("VERIF_VERBOSE") != "") }
+}
+
+
+func init() {
+	driver.Register(&driver.Spec{Prop: "C18", Quick: 2000, Thorough: 60000, Batch: 20,
+		Run: func(prop string, seed uint64, idx int, tier string, replayDir string, cmdLog *os.File) *det.CaseResult {
+			return pure.RunC18(seed, 5000)
+		},
+		Rule: "case = 5000 evaluations of the real resources functions / quantity parsers on seeded operands (key sets from 4 names, nil and empty, values from the int64 extremes and uniform; strings from the quantity grammar and mutations), each compared with an arbitrary-precision (math/big) reference; non-trivial = the case contained int64-extreme operands or near-overflow quantity strings; distinct by sha256 of all operands of the case",
+		Assumptions: []string{"the reference follows the documentation comments of each function; where a comment is silent (disjoint/empty operands of the OnlyExisting comparisons, rounding of MultiplyBy) the reference is three-valued / interval-valued and cannot alarm", "quantity grammar as documented in quantity.go plus optional blanks between digits and suffix (accepted by the implementation, not a truncation)"}})
+}
+
+func init() {
+	driver.Register(&driver.Spec{Prop: "C20", Quick: 2000, Thorough: 60000, Batch: 20, RaceThorough: true,
+		Run: func(prop string, seed uint64, idx int, tier string, replayDir string, cmdLog *os.File) *det.CaseResult {
+			return pure.RunC20(seed, idx, tier)
+		},
+		Rule: "case 0 = exhaustive enumeration of the small sub-space (capacity<=5 quick / <=7 thorough, fill<=2*capacity+1, at most one resize at every position, every (start,count) and recent(count)); every other case = 60 seeded ring-buffer scripts (add, resize, GetEventsFromID, GetRecentEvents) compared with a list-based reference by pointer identity of the records, 20 event-store scripts, and in every 4th case a concurrent stream run (publisher, resizes, subscribers created at random moments); non-trivial = at least one query with start inside the available range; distinct by sha256 of the scripts",
+		Assumptions: []string{"the publisher of the stream runs does ring.Add followed by PublishEvent from one goroutine, exactly as EventSystemImpl's handler goroutine does", "a store batch is compared with the store size in force when its events were stored (a size change takes effect at the next collect)"}})
 }
